@@ -31,6 +31,10 @@ type PoolCall struct {
 	Indent string `json:"indent,omitempty"`
 	Opts   V5Opts `json:"opts"`
 	Class  string `json:"class"` // succeeds | fails | malformed (how it was generated)
+	// SharedOpt >= 0: the call passes one of the pool's shared *ApplyOptions values (same
+	// settings as Opts) instead of a fresh one: an options value is an argument like any
+	// other, it may be reused for any number of calls and must come back unchanged.
+	SharedOpt int `json:"shared_opt"`
 }
 
 type CallResult struct {
@@ -53,6 +57,8 @@ type CallPool struct {
 
 	// live state of a worker
 	bufs    []*mon.Guarded
+	shared  []*jp.ApplyOptions
+	sharedS []jp.ApplyOptions // their values when the pool was opened
 	patches []jp.Patch
 	guards  []*mon.Guarded // re-homed raw messages of the patches
 	snaps   []patchSnap
@@ -100,29 +106,34 @@ func BuildPool(seed int64, id int) *CallPool {
 				ind = []string{" ", "\t", "  "}[r.Intn(3)]
 			}
 			// the same Patch on its own document, on other documents, on malformed input
-			p.Calls = append(p.Calls, PoolCall{API: api, A: x.doc, B: -1, Patch: x.patch, Indent: ind, Opts: o, Class: "own-document"})
-			p.Calls = append(p.Calls, PoolCall{API: api, A: otherDocs[r.Intn(len(otherDocs))], B: -1, Patch: x.patch, Indent: ind, Opts: o, Class: "other-document"})
-			p.Calls = append(p.Calls, PoolCall{API: api, A: malformed[r.Intn(len(malformed))], B: -1, Patch: x.patch, Indent: ind, Opts: o, Class: "malformed"})
+			so := -1
+			if api == "ApplyWithOptions" && r.Intn(3) > 0 {
+				so = r.Intn(len(sharedOptSets))
+				o = sharedOptSets[so]
+			}
+			p.Calls = append(p.Calls, PoolCall{API: api, A: x.doc, B: -1, Patch: x.patch, Indent: ind, Opts: o, Class: "own-document", SharedOpt: so})
+			p.Calls = append(p.Calls, PoolCall{API: api, A: otherDocs[r.Intn(len(otherDocs))], B: -1, Patch: x.patch, Indent: ind, Opts: o, Class: "other-document", SharedOpt: so})
+			p.Calls = append(p.Calls, PoolCall{API: api, A: malformed[r.Intn(len(malformed))], B: -1, Patch: x.patch, Indent: ind, Opts: o, Class: "malformed", SharedOpt: so})
 		}
 	}
 	for i := 0; i < 8; i++ {
 		docT := mprof.Any(r)
 		d := addIn(docT)
 		pt := addIn(genMergePatchFor(r, mprof, mustParse(docT)))
-		p.Calls = append(p.Calls, PoolCall{API: "MergePatch", A: d, B: pt, Patch: -1, Class: "derived"})
-		p.Calls = append(p.Calls, PoolCall{API: "MergePatch", A: d, B: malformed[r.Intn(len(malformed))], Patch: -1, Class: "malformed"})
+		p.Calls = append(p.Calls, PoolCall{API: "MergePatch", A: d, B: pt, Patch: -1, Class: "derived", SharedOpt: -1})
+		p.Calls = append(p.Calls, PoolCall{API: "MergePatch", A: d, B: malformed[r.Intn(len(malformed))], Patch: -1, Class: "malformed", SharedOpt: -1})
 		o1 := mprof.Object(r, 3)
 		a := addIn(o1)
 		b := addIn(genMergePatchFor(r, mprof, mustParse(o1)))
-		p.Calls = append(p.Calls, PoolCall{API: "MergeMergePatches", A: a, B: b, Patch: -1, Class: "derived"})
-		p.Calls = append(p.Calls, PoolCall{API: "MergeMergePatches", A: malformed[r.Intn(len(malformed))], B: b, Patch: -1, Class: "malformed"})
+		p.Calls = append(p.Calls, PoolCall{API: "MergeMergePatches", A: a, B: b, Patch: -1, Class: "derived", SharedOpt: -1})
+		p.Calls = append(p.Calls, PoolCall{API: "MergeMergePatches", A: malformed[r.Intn(len(malformed))], B: b, Patch: -1, Class: "malformed", SharedOpt: -1})
 		e := addIn(mprof.Respell(r, editObject(r, mprof, mustParse(o1), 1+r.Intn(3)), true))
-		p.Calls = append(p.Calls, PoolCall{API: "CreateMergePatch", A: a, B: e, Patch: -1, Class: "edited"})
-		p.Calls = append(p.Calls, PoolCall{API: "CreateMergePatch", A: a, B: otherDocs[3], Patch: -1, Class: "fails"})
-		p.Calls = append(p.Calls, PoolCall{API: "CreateMergePatch", A: malformed[r.Intn(len(malformed))], B: e, Patch: -1, Class: "malformed"})
-		p.Calls = append(p.Calls, PoolCall{API: "Equal", A: a, B: addIn(mprof.Respell(r, mustParse(o1), true)), Patch: -1, Class: "equal"})
-		p.Calls = append(p.Calls, PoolCall{API: "Equal", A: a, B: e, Patch: -1, Class: "unequal"})
-		p.Calls = append(p.Calls, PoolCall{API: "Equal", A: malformed[r.Intn(len(malformed))], B: e, Patch: -1, Class: "malformed"})
+		p.Calls = append(p.Calls, PoolCall{API: "CreateMergePatch", A: a, B: e, Patch: -1, Class: "edited", SharedOpt: -1})
+		p.Calls = append(p.Calls, PoolCall{API: "CreateMergePatch", A: a, B: otherDocs[3], Patch: -1, Class: "fails", SharedOpt: -1})
+		p.Calls = append(p.Calls, PoolCall{API: "CreateMergePatch", A: malformed[r.Intn(len(malformed))], B: e, Patch: -1, Class: "malformed", SharedOpt: -1})
+		p.Calls = append(p.Calls, PoolCall{API: "Equal", A: a, B: addIn(mprof.Respell(r, mustParse(o1), true)), Patch: -1, Class: "equal", SharedOpt: -1})
+		p.Calls = append(p.Calls, PoolCall{API: "Equal", A: a, B: e, Patch: -1, Class: "unequal", SharedOpt: -1})
+		p.Calls = append(p.Calls, PoolCall{API: "Equal", A: malformed[r.Intn(len(malformed))], B: e, Patch: -1, Class: "malformed", SharedOpt: -1})
 	}
 	// every root kind on either side of the two-argument entry points (a null / scalar / array
 	// root takes its own branch in each of them, and what such a branch leaves undecided is
@@ -132,23 +143,35 @@ func BuildPool(seed int64, id int) *CallPool {
 	for _, rt := range roots {
 		for _, ob := range objs {
 			for _, api := range []string{"MergePatch", "MergeMergePatches", "CreateMergePatch", "Equal"} {
-				p.Calls = append(p.Calls, PoolCall{API: api, A: rt, B: ob, Patch: -1, Class: "root-kind-first"})
-				p.Calls = append(p.Calls, PoolCall{API: api, A: ob, B: rt, Patch: -1, Class: "root-kind-second"})
+				p.Calls = append(p.Calls, PoolCall{API: api, A: rt, B: ob, Patch: -1, Class: "root-kind-first", SharedOpt: -1})
+				p.Calls = append(p.Calls, PoolCall{API: api, A: ob, B: rt, Patch: -1, Class: "root-kind-second", SharedOpt: -1})
 			}
 		}
 	}
 	for _, pi := range p.PatchInputs {
-		p.Calls = append(p.Calls, PoolCall{API: "DecodePatch", A: pi, B: -1, Patch: -1, Class: "valid"})
+		p.Calls = append(p.Calls, PoolCall{API: "DecodePatch", A: pi, B: -1, Patch: -1, Class: "valid", SharedOpt: -1})
 	}
-	p.Calls = append(p.Calls, PoolCall{API: "DecodePatch", A: malformed[1], B: -1, Patch: -1, Class: "malformed"})
+	p.Calls = append(p.Calls, PoolCall{API: "DecodePatch", A: malformed[1], B: -1, Patch: -1, Class: "malformed", SharedOpt: -1})
 	p.Calls = append(p.Calls, PoolCall{API: "DecodePatch", A: addIn(`[{"op":"add","path":"/a"}]`), B: -1, Patch: -1, Class: "wrong-shape"})
 	p.Calls = append(p.Calls, PoolCall{API: "DecodePatch", A: addIn(`[{"op":"bogus","path":"/a","value":{"k":[1,2]}}]`), B: -1, Patch: -1, Class: "wrong-shape"})
 	return p
 }
 
+// sharedOptSets: the settings of the pool's shared *ApplyOptions values.
+var sharedOptSets = []V5Opts{
+	{NegIdx: true, EscapeHTML: true, AllowMissing: true, Limit: 60},
+	{NegIdx: false, EscapeHTML: false, EnsurePath: true, Limit: 0},
+	{NegIdx: true, EscapeHTML: false, AllowMissing: true, EnsurePath: true, Limit: 100000},
+}
+
 // Open puts the inputs into write-protected memory, decodes the shared
 // patches and re-homes their raw messages into write-protected memory too.
 func (p *CallPool) Open() error {
+	for _, so := range sharedOptSets {
+		lo := so.Lib()
+		p.shared = append(p.shared, lo)
+		p.sharedS = append(p.sharedS, *lo)
+	}
 	for _, t := range p.Inputs {
 		g, err := mon.NewGuarded([]byte(t))
 		if err != nil {
@@ -235,6 +258,17 @@ func (p *CallPool) CheckPatches() string {
 	return ""
 }
 
+// CheckOptions compares every shared *ApplyOptions value with what it held
+// when the pool was opened (all fields, exported or not).
+func (p *CallPool) CheckOptions() string {
+	for i, lo := range p.shared {
+		if !reflect.DeepEqual(*lo, p.sharedS[i]) {
+			return fmt.Sprintf("shared ApplyOptions %d was modified: %+v, was %+v", i, *lo, p.sharedS[i])
+		}
+	}
+	return ""
+}
+
 // CheckInputs compares every shared input buffer with its text (a write
 // would already have faulted; this catches a harness mistake).
 func (p *CallPool) CheckInputs() string {
@@ -266,7 +300,11 @@ func (p *CallPool) Run(c PoolCall, retained *[]byte) CallResult {
 		case "ApplyIndent":
 			out, err = p.patches[c.Patch].ApplyIndent(p.arg(c.A), c.Indent)
 		case "ApplyWithOptions":
-			out, err = p.patches[c.Patch].ApplyWithOptions(p.arg(c.A), c.Opts.Lib())
+			lo := c.Opts.Lib()
+			if c.SharedOpt >= 0 {
+				lo = p.shared[c.SharedOpt]
+			}
+			out, err = p.patches[c.Patch].ApplyWithOptions(p.arg(c.A), lo)
 		case "MergePatch":
 			out, err = jp.MergePatch(p.arg(c.A), p.arg(c.B))
 		case "MergeMergePatches":
